@@ -657,6 +657,25 @@ example :
     (routerSwap false (exSt 940) [2] [2] (13, 13) (some 12, some 12) (40, 40)).isSome = true ∧
     (⟨2, 12, 13, 1080, 1000, 0, 0, 0, 950⟩ : RMarket).validExcl 13 13 30 0 = true := by decide
 
+/-- … and when both sides end in the CURRENT market (empty paths, or paths whose last market is the current
+one), the current market's balance covers its collateral plus both outputs -/
+theorem current_market_outputs_jointly_covered {s s' : RState} {p₁ p₂ : List Nat} {t : Nat}
+    {ti : Option Nat × Option Nat} {am : Nat × Nat} {o₁ o₂ : Nat}
+    (h : routerSwap false s p₁ p₂ (t, t) ti am = some (s', o₁, o₂))
+    (h1 : p₁.getLast?.getD s'.cur.token = s'.cur.token) (h2 : p₂.getLast?.getD s'.cur.token = s'.cur.token)
+    (hp : s'.cur.isPure = false) (hs : s'.cur.side t = some true) :
+    s'.cur.colL + o₁ + o₂ ≤ s'.cur.balL := by
+  have hf := routerSwap_final_validated h
+  unfold finalBalCheck at hf
+  simp only [h1, h2, Bool.false_eq_true, if_false, if_true, Bool.and_eq_true] at hf
+  exact validExcl_joint_long s'.cur t o₁ o₂ hp hs hf.1
+
+/-- non-vacuity: withdrawing both legs as token 12 straight from the current market (empty paths) -/
+example : (routerSwap false { markets := [], cur := ⟨0, 12, 13, 1000, 1000, 0, 0, 940, 0⟩, outs := [], trace := [] }
+    [] [] (12, 12) (some 12, some 12) (30, 30)).isSome = true ∧
+  (routerSwap false { markets := [], cur := ⟨0, 12, 13, 1000, 1000, 0, 0, 950, 0⟩, outs := [], trace := [] }
+    [] [] (12, 12) (some 12, some 12) (30, 30)).isSome = false := by decide
+
 end Router
 
 /-! ## audit: further non-vacuity instances and strengthened statements -/
